@@ -1,6 +1,7 @@
 import IGVerif.Props.Ties
 import IGVerif.Spec.PrivateLink
 import IGVerif.Proofs.PrivateLink
+import IGVerif.Proofs.Annotations
 /-! C16 — private properties and annotations attach exactly to the values coded for. -/
 namespace IGVerif.C16
 open IGVerif
@@ -73,5 +74,15 @@ theorem value_receives_its_own_private_nodes (links : List (List Bool × List PN
     attachPrivate links (.leaf t sl sr m p) rp =
       .leaf t sl sr m (p ++ ((links.find? (fun k => k.1 = rp.reverse)).map (·.2)).getD []) :=
   attachPrivate_leaf links t sl sr m p rp
+
+/-- **A semantic annotation written on a component applies to every value of that component**:
+    whatever combinations, chains and shared text the component contains, every one of its
+    values has the header's annotation as its effective annotation (and a component without
+    annotation gives none to its values). Values of another annotation belong to another tree
+    with its own header, joined by the implicit conjunction, which passes no annotation on. -/
+theorem annotation_on_every_value_of_its_component (h : Hdr) (e : Expr) (v : LeafV)
+    (hv : v ∈ leavesOf ((denoteE [] [] e).withMeta (hdrMeta h))) :
+    v.eann = h.anno.map (fun a => '[' :: a ++ [']']) :=
+  annotation_applies_to_every_value h e v hv
 
 end IGVerif.C16
